@@ -903,6 +903,15 @@ func tableLenForm(r *Run, mm *core.MapModel, v ssa.Value) (string, bool) {
 		return fmt.Sprintf("constant %d", k), ok && k > 0 && k&(k-1) == 0
 	case *ssa.BinOp:
 		k, isC := core.ConstInt(x.Y)
+		if kx, isCx := core.ConstInt(x.X); isCx && !isC {
+			switch {
+			case x.Op == token.MUL && kx >= 2 && kx&(kx-1) == 0 && isLenOfBuckets(x.Y):
+				return fmt.Sprintf("current length times %d", kx), true
+			case x.Op == token.SHL && kx >= 1 && kx&(kx-1) == 0:
+				// 2^a << n is a power of two for every n that does not shift the bit out
+				return fmt.Sprintf("constant %d shifted left", kx), true
+			}
+		}
 		if isLenOfBuckets(x.X) && isC {
 			switch {
 			case x.Op == token.SHR && k == 1, x.Op == token.QUO && k == 2:
